@@ -208,7 +208,10 @@ def handle (d : D) (tau : Nat) (op : String) (args : List Nat) : Except String D
      | some (t, T) =>
        (match T.frames with
         | top :: _ =>
-          if top.key = c then need (d.fire (.call t k)) s!"call {c}->{k} not enabled"
+          if top.key = c then
+            -- the static-rank assumption of `no_stall` (`ReachableR`): a callee's key is below its caller's
+            if k < c then need (d.fire (.call t k)) s!"call {c}->{k} not enabled"
+            else throw s!"reg {c} {k}: the callee is not below the caller (rank assumption of no_stall)"
           else throw s!"reg {c} {k}: the innermost frame is {top.key}"
         | [] => throw "reg from a session task")
      | none => do
